@@ -26,8 +26,22 @@ static long case_cnt[16], op_cnt[32];
 static int mismatch_printed;
 
 static char const *opname[] = {"?", "push_back", "push_fore", "insert", "pull_back", "pull_fore", "remove", "store", "erase", "setn", "setm",
-                               "setz", "sort", "sort_fore", "sort_back", "push_sort", "search", "at", "of", "top", "create", "swap"};
+                               "setz", "sort", "sort_fore", "sort_back", "push_sort", "search", "at", "of", "top", "create", "walk"};
 
+/* element types for the typed traversal macros (one per element size the models use) */
+typedef struct { a_byte b[1]; } elem1;
+typedef struct { a_byte b[2]; } elem2;
+typedef struct { a_byte b[3]; } elem3;
+typedef struct { a_byte b[8]; } elem8;
+typedef struct { a_byte b[24]; } elem24;
+#ifndef MAXL
+#define MAXL 32
+#endif
+static struct
+{
+    int fwd[MAXL], fwd2[MAXL], rev[MAXL], rev2[MAXL], idx[MAXL], ridx[MAXL];
+    int nf, nf2, nr, nr2, ni, nri, acc, g[3];
+} walk;
 static void put_elem(a_byte *p, a_size siz, int v)
 {
     for (a_size j = 0; j < siz; ++j) { p[j] = (a_byte)(v + 31 * (int)j); }
@@ -123,7 +137,18 @@ static void log_event(FILE *f, edge const *e, int rslot, int rval, int rc, int p
     put_seq(f, e->seq, e->n);
     fprintf(f, "},\"post\":{\"mem\":%d,\"siz\":%d,\"seq\":", pmem, psiz);
     put_seq(f, pseq, pnum);
-    fprintf(f, "},\"slot\":%d,\"val\":%d,\"rc\":%d}\n", rslot, rval, rc);
+    fprintf(f, "},\"slot\":%d,\"val\":%d,\"rc\":%d", rslot, rval, rc);
+    if (e->op == 21)
+    {
+        fputs(",\"walk\":{\"fwd\":", f); put_seq(f, walk.fwd, walk.nf);
+        fputs(",\"fwd2\":", f); put_seq(f, walk.fwd2, walk.nf2);
+        fputs(",\"rev\":", f); put_seq(f, walk.rev, walk.nr);
+        fputs(",\"rev2\":", f); put_seq(f, walk.rev2, walk.nr2);
+        fputs(",\"idx\":", f); put_seq(f, walk.idx, walk.ni);
+        fputs(",\"ridx\":", f); put_seq(f, walk.ridx, walk.nri);
+        fprintf(f, ",\"acc\":%d,\"getters\":[%d,%d,%d]}", walk.acc, walk.g[0], walk.g[1], walk.g[2]);
+    }
+    fputs("}\n", f);
     ++n_events;
 }
 
@@ -204,7 +229,7 @@ static int fault_edge(edge const *e, long single, long from)
     int rc = 0, rslot = -1, rval = 0;
     a_size oldnum = (a_size)e->n;
     a_byte blk[MAXL * 16];
-    a_byte keyobj[16];
+    a_byte keyobj[64];
     int isvec = e->kind == 1;
     a_buf *before = o.b;
     char live0[256];
@@ -288,7 +313,7 @@ static int run_edge(edge const *e, FILE *fo)
     int rc = 0, rslot = -1, rval = 0;
     a_size oldnum = (a_size)e->n;
     a_byte blk[MAXL * 16];
-    a_byte keyobj[16];
+    a_byte keyobj[64];
     int isvec = e->kind == 1;
     f_begin(0, 0);
 #include "seq_ops.inc"
